@@ -6,11 +6,15 @@
 EXTENDS ArithGen
 VARIABLES a, b
 vars == <<a, b, x>>
-MCInit == a \in Grid /\ b \in Grid /\ x = 0
-MCNext == UNCHANGED vars
+\* x = 0: a is chosen; x = 1: the pair (a, b) is chosen (so that TLC's workers share the pairs)
+MCInit == a \in Grid /\ b = Zero /\ x = 0
+MCNext == x = 0 /\ x' = 1 /\ a' = a /\ b' \in Grid
 
 Digits63 == <<"9","2","2","3","3","7","2","0","3","6","8","5","4","7","7","5","8","0","8">>
 Constants ==
+  /\ Pow2(0) = One /\ Pow2(64) = Pow(Two, 64) /\ Pow2(10) = FromInt(1024) /\ Len(Pow2Mags) = 65
+  /\ TwoTo63 = Pow2(63) /\ TwoTo64 = Pow2(64) /\ MaxInt64 = Sub(TwoTo63, One) /\ MinInt64 = Neg(TwoTo63)
+  /\ One = FromInt(1) /\ Two = FromInt(2) /\ TimesBand = Sub(TwoTo63, FromInt(4096))
   /\ TwoTo63 = FromDigits(Digits63) /\ ToDigits(TwoTo63) = Digits63
   /\ ToDigits(MinInt64) = <<"-">> \o Digits63
   /\ Fits64(MaxInt64) /\ ~Fits64(Add(MaxInt64, One)) /\ Fits64(MinInt64) /\ ~Fits64(Sub(MinInt64, One))
@@ -26,7 +30,7 @@ Constants ==
   /\ Pattern(Alt01) = <<21845, 21845, 21845, 21845>> /\ Pattern(Neg(One)) = <<65535, 65535, 65535, 65535>>
   /\ Pattern(Nibbles) = <<57072, 39612, 22136, 4660>>            \* 0xdef0 0x9abc 0x5678 0x1234
   /\ Pattern(MinInt64) = <<0, 0, 0, 32768>>
-  /\ \A n \in 0..63 : Pow2Tab[n + 1] = Add(Pow2Tab[n], Pow2Tab[n])
+  /\ \A n \in 0..63 : Pow2(n + 1) = Add(Pow2(n), Pow2(n))
 
 DivLaws(q, r, floor) ==
   /\ IsBig(q) /\ IsBig(r) /\ a = Add(Mul(q, b), r)
@@ -51,6 +55,7 @@ BigIntLaws ==
        /\ DivModTrunc(Mul(a, b), b) = <<a, Zero>>
   /\ LET w == Wrap64(Mul(a, b)) IN Fits64(w) /\ IsZero(ModFloor(Sub(w, Mul(a, b)), TwoTo64))
   /\ Wrap64(a) = a
+  /\ \A v \in {a, Mul(a, b), Add(a, b), Neg(TwoTo64), Sub(Neg(TwoTo64), One), TwoTo64} : Unsigned64(v) = ModFloor(v, TwoTo64)
 
 \* the documented identities, on the specification's own results
 Val(R) == CHOOSE v \in R.ints : TRUE
@@ -87,9 +92,9 @@ ArithLaws ==
   /\ BitOp(AndT, a, b) = BitOp(AndT, b, a) /\ OfPattern(Pattern(a)) = a
   \* shifts: by one is doubling modulo 2^64; right shifts undo a left shift that did not overflow
   /\ Shift("<<", a, One) = Exact(Wrap64(Add(a, a))) /\ Shift(">>>", a, Zero) = Exact(a) /\ Shift(">>", a, Zero) = Exact(a)
-  /\ \A n \in {1, 7, 31, 32, 62, 63} : LET k == FromInt(n)  s == Mul(a, Pow2Tab[n]) IN
+  /\ \A n \in {1, 7, 31, 32, 62, 63} : LET k == FromInt(n)  s == Mul(a, Pow2(n)) IN
         /\ Fits64(s) => (Shift(">>", s, k) = Exact(a) /\ (~a.neg => Shift(">>>", s, k) = Exact(a)))
-        /\ Val(Shift(">>>", a, k)) = DivFloor(Unsigned64(a), Pow2Tab[n]) /\ ~Val(Shift(">>>", a, k)).neg
+        /\ Val(Shift(">>>", a, k)) = DivFloor(Unsigned64(a), Pow2(n)) /\ ~Val(Shift(">>>", a, k)).neg
         /\ Val(Shift(">>", a, k)).neg = a.neg
   /\ Shift("<<", a, FromInt(64)) = Loose /\ Shift(">>", a, Neg(One)) = Loose
   \* powers
@@ -103,13 +108,19 @@ ArithLaws ==
   \* roundm: a nearest multiple
   /\ \A v \in RoundM(a, b).ints : IsZero(ModFloor(v, b)) /\ CmpMag(MulSmallMag(Sub(v, a).mag, 2), b.mag) <= 0
   \* modular functions: residues, and agreement between them
-  /\ \A m \in {One, Two, FromInt(7), D(<<"1","0","0","0","0","0","0","0","0","7">>), Pow2(32), MaxInt64} :
+  /\ \A m \in {One, FromInt(7), D(<<"1","0","0","0","0","0","0","0","0","7">>), MaxInt64} :
         /\ \A op \in TernaryOps \ {"mexp"} : LET r == Val(Modular(op, a, b, m)) IN ~r.neg /\ Lt(r, m)
         /\ Modular("madd", Val(Modular("msub", a, b, m)), b, m) = Exact(ModFloor(a, m))
         /\ Modular("mexp", a, Two, m) = Modular("mmul", a, a, m)
         /\ Modular("mexp", a, FromInt(5), m) = Modular("mmul", Val(Modular("mexp", a, FromInt(4), m)), a, m)
-        /\ (~b.neg) => Modular("mexp", a, Add(b, One), m) = Modular("mmul", Val(Modular("mexp", a, b, m)), a, m)
         /\ Modular("mmul", a, b, m) = Exact(ModFloor(Mul(ModFloor(a, m), ModFloor(b, m)), m))
+  \* a ** (b + 1) = a ** b * a (mod m), for the exponents of the grid, on a slice of the grid
+  /\ (~b.neg /\ IsSmall(b) /\ a \in Tri) => LET m == D(<<"1","0","0","0","0","0","0","0","0","7">>) IN
+        Modular("mexp", a, Add(b, One), m) = Modular("mmul", Val(Modular("mexp", a, b, m)), a, m)
   /\ Modular("madd", a, b, Zero) = Loose /\ Modular("mexp", a, Neg(One), Two) = Loose
-Laws == Constants /\ BigIntLaws /\ ArithLaws
+\* Fermat: a^(p-1) = 1 (mod p) for the primes 10^9 + 7 and 2^61 - 1 (a 61-bit exponent)
+Fermat == \A p \in {D(<<"1","0","0","0","0","0","0","0","0","7">>), Sub(Pow2(61), One)} : \A g \in {Two, FromInt(7), Sqrt63, MaxInt64, MinInt64} :
+            Modular("mexp", g, Sub(p, One), p) = Exact(One)
+ASSUME Constants /\ Fermat
+Laws == x = 1 => (BigIntLaws /\ ArithLaws)
 =============================================================================
